@@ -327,7 +327,65 @@ func c13Null(a *acc) {
 			}
 		}
 	}
-	a.sample(map[string]any{"queries": len(qs) + 2, "rows": len(rows), "example": qs[0].sql})
+	// LIKE and IS [NOT] NULL combined in one predicate (each rewrite must survive the other), in WHERE and in HAVING
+	type crow struct {
+		s any
+		t any
+	}
+	var crows []crow
+	for _, sv := range []any{"ab", "b", "a", nil} {
+		for _, tv := range []any{1, nil} {
+			crows = append(crows, crow{sv, tv})
+		}
+	}
+	like := func(v any, p string) bool { x, ok := v.(string); return ok && ref.Like(x, p) }
+	combos := []struct {
+		pred string
+		want func(c crow) bool
+	}{
+		{"%s LIKE 'a%%' AND %s IS NOT NULL", func(c crow) bool { return like(c.s, "a%") && c.t != nil }},
+		{"%s LIKE 'a%%' OR %s IS NULL", func(c crow) bool { return like(c.s, "a%") || c.t == nil }},
+		{"%[2]s IS NULL AND %[1]s LIKE '%%b'", func(c crow) bool { return c.t == nil && like(c.s, "%b") }},
+		{"%[2]s IS NOT NULL AND %[1]s LIKE '_' AND %[1]s IS NOT NULL", func(c crow) bool { return c.t != nil && like(c.s, "_") && c.s != nil }},
+	}
+	for _, cb := range combos {
+		for _, ctx := range []string{"where", "having"} {
+			sql := "SELECT id FROM stream WHERE " + fmt.Sprintf(cb.pred, "s", "t")
+			if ctx == "having" {
+				sql = "SELECT id, first_value(s) AS f, first_value(t) AS g FROM stream GROUP BY id, CountingWindow(1) HAVING " + fmt.Sprintf(cb.pred, "f", "g")
+			}
+			r := detExec(sql, detOpts{Eager: true}, func(e *Env) {
+				for i, c := range crows {
+					row := Row{"id": i, "s": c.s}
+					if c.t != nil {
+						row["t"] = c.t
+					}
+					e.Emit(row)
+				}
+			})
+			if r.ExecErr != "" || r.Status != sched.StatusOK {
+				a.fail("C13|combined|"+ctx+"|exec", r.ExecErr+" "+r.Status.String(), map[string]any{"sql": sql}, nil, nil)
+				continue
+			}
+			passed := map[int]bool{}
+			for _, b := range r.Batches {
+				for _, row := range b {
+					passed[toInt(row["id"])] = true
+				}
+			}
+			for i, c := range crows {
+				a.r.Evaluations++
+				a.r.States++
+				if cb.want(c) {
+					a.r.Nontrivial++
+				}
+				if passed[i] != cb.want(c) {
+					a.fail("C13|combined|"+ctx+"|like-with-is-null", fmt.Sprintf("%s on s=%v t=%v: kept=%v, SQL semantics %v", sql, c.s, c.t, passed[i], cb.want(c)), map[string]any{"sql": sql, "s": c.s, "t": c.t}, cb.want(c), passed[i])
+				}
+			}
+		}
+	}
+	a.sample(map[string]any{"queries": len(qs) + 2 + 2*len(combos), "rows": len(rows), "example": qs[0].sql})
 }
 
 func (c13) Describe(tier string) fw.Description {
